@@ -31,7 +31,15 @@ def field (f : List Nat) (off : Nat) : Option Nat :=
   | [a, b, c, d] => some (a + 2 ^ 8 * b + 2 ^ 16 * c + 2 ^ 24 * d)
   | _ => none
 
-/-- `dex\n` (or the optimised `dey\n`), three version characters that are not decisive, `\0` -/
+/-- The magic AS ANDROGUARD ACCEPTS IT, which is WIDER than the format document.
+    The document fixes DEX_FILE_MAGIC = `dex\n` + three decimal version digits (`035` … `041`) + `\0`.
+    `MagicOK` additionally admits `dey\n` (the magic of optimised ODEX files, not a DEX magic)
+    and ANY three bytes in the version positions 4..6 (the code only logs a warning there).
+    It is fitted to the code on purpose: `accepted_iff` states exactly what the code accepts, and
+    the property needs only the other direction — everything outside `MagicOK` (a fortiori
+    everything outside the document's narrower set that differs in bytes 0..3 or 7) is rejected
+    (`bad_magic_rejected`).  A wrong version such as `dex\n0x5\0` is NOT rejected by androguard and
+    no theorem here says it is (`version_bytes_not_decisive` says the opposite). -/
 def MagicOK (f : List Nat) : Prop :=
   f[0]? = some 0x64 ∧ f[1]? = some 0x65 ∧ (f[2]? = some 0x78 ∨ f[2]? = some 0x79)
     ∧ f[3]? = some 0x0a ∧ f[7]? = some 0x00
